@@ -43,11 +43,54 @@ def run(ctx, variants=(("verif", "c04"), ("verif,unsafe", "c04u"))):
         if drv is None:
             broken.append({"kind": "obligation", "name": "driver c04 (%s) could not be built" % tags, "detail": dlog[-1500:]})
             continue
+        # (a) deterministic: every length / count field of every well-formed frame (positions from the schema via
+        #     the oracle's `lens` op, inside record sets too) x the full value set
+        fl, rc, err = ctx.run_driver(drv, ["-malframes"])
+        frames = [l.split() for l in fl if len(l.split()) == 3]
+        if rc != 0 or not frames:
+            broken.append({"kind": "obligation", "name": "driver c04 -malframes (%s) failed" % tags, "detail": err[-1500:]})
+            continue
+        cases, nfields, nofields = [], 0, 0
+
+        def expand(fr_list):
+            nonlocal nfields, nofields
+            outs, e = codec.oracle_lines(ctx, orc, ["lens %s %s %s => -" % tuple(f) for f in fr_list])
+            if outs is None:
+                broken.append({"kind": "obligation", "name": "oracle lens op", "detail": e}); return []
+            parsed = []
+            for f, o in zip(fr_list, outs):
+                m = o[6:o.rindex(" holds=")] if o.startswith("model=") else "-"
+                fields = codec.parse_fields(m)
+                if not fields:
+                    nofields += 1
+                raw = bytes.fromhex(f[2])
+                cases.append("%s %s %s" % (f[0], f[1], f[2]))
+                for fd in fields:
+                    nfields += 1
+                    for mb in codec.field_mutations(raw, fd, ctx.tier == "thorough"):
+                        cases.append("%s %s %s" % (f[0], f[1], mb.hex()))
+                parsed.append((f, raw, fields))
+            return parsed
+
+        parsed = expand(frames)
+        # magic-0 message sets (the writer never produces them): rewritten from the magic-1 frames
+        v0 = []
+        for f, raw, fields in parsed:
+            b0 = codec.v1_to_v0(raw, fields)
+            if b0:
+                v0.append([f[0], f[1], b0.hex()])
+        expand(v0)
+        if nofields:
+            broken.append({"kind": "obligation", "name": "lens: %d well-formed frames could not be walked" % nofields, "detail": ""})
+        ctx.coverage["length_fields_mutated"] = ctx.coverage.get("length_fields_mutated", 0) + nfields
+        ctx.coverage["v0_message_set_frames"] = len(v0)
+        # (b) extra: blind overwrites at random offsets
         gen, rc, err = ctx.run_driver(drv, ["-malgen"])
         if rc != 0:
             broken.append({"kind": "obligation", "name": "driver c04 -malgen (%s) crashed" % tags, "detail": err[-1500:]})
             continue
-        cases = [l for l in gen if l.strip()]
+        cases += [l for l in gen if l.strip()]
+        cases = list(dict.fromkeys(cases))
         if n > 0 and ctx.tier != "thorough":
             cases = cases[::4]          # the unsafe build shares decode.go; sample it in the quick tier
         path = os.path.join(os.path.dirname(drv), "c20-cases-%s-%d.txt" % (name, ctx.seed))
@@ -57,13 +100,20 @@ def run(ctx, variants=(("verif", "c04"), ("verif,unsafe", "c04u"))):
         if rc != 0:
             broken.append({"kind": "obligation", "name": "driver c04 -mal (%s) crashed" % tags, "detail": err[-1500:]})
         got = [l for l in lines if "\t" in l]
-        if len(got) != len(cases):
+        if len(got) != len(cases) and "stopping after" not in err:
             broken.append({"kind": "obligation", "name": "driver c04 -mal (%s): %d outcomes for %d cases" % (tags, len(got), len(cases)), "detail": err[-800:]})
         dis += ctx.correspond(got, orc, "ReadResponse on mutated frames (%s) <-> Model/Codec.lean readResponse" % tags)
-    ctx.coverage["rule"] = ("every response type x version: the well-formed small-full frame and copies with ONE position overwritten as an int32 "
+        if any(d.get("kind") == "disagreement" and not d["holds_on_impl"] for d in dis):
+            break                       # failing inputs found: no need to spend the budget on the other build variant
+    ctx.coverage["rule"] = ("DETERMINISTIC: every response type x version (Fetch: one frame per message-set format magic 0/1/2 with 3 records, keys, a header): "
+                            "EVERY length/count field (frame size, string/bytes/array prefixes fixed and compact, tag-buffer counts, record-set size, message size, "
+                            "batchLength, numRecords, v0/v1 key/value lengths, v2 record/key/value/header varints; positions computed from the schema by the oracle) x "
+                            "{-1,-2,min,max,0,orig+-1,rest,rest+1,255,2^16,2^24} resp. varints {0,1,2,orig+-1,rest+1,rest+2,2^31,2^32,2^62,2^63,2^64-1,-2^63,over-long}, "
+                            "enclosing sizes kept consistent, checksummed fields both raw and with the CRC recomputed. EXTRA (blind): "
+                            "the well-formed small-full frame and copies with ONE position overwritten as an int32 "
                             "{-1, min, max, rest+1, orig+-1, 0}, int16 {-1, max, min, rest+1} or varint {2^31-1, 2^31, 2^63, 2^64-1, 11 continuation bytes, 0,1,2} "
                             "(quick: frame size, first body offsets, 6 random offsets; thorough: every offset, random values too), plus size prefix 2^31-1; "
-                            "decoded by the real ReadResponse in a child process (ulimit -v 4 GiB, GOMEMLIMIT 512 MiB, 8 s timeout, stops after 20 crashed cases), outcome ok/err/panic/oom/timeout "
+                            "decoded by the real ReadResponse in a child process (ulimit -v 4 GiB, GOMEMLIMIT 512 MiB, 5 s timeout, stops after 8 crashed cases), outcome ok/err/panic/oom/timeout "
                             "and measured TotalAlloc <= 256*len+1MiB compared with the model's ok/err/panic/balloon. distinct = distinct frames")
     concrete = [d for d in dis if d.get("kind") == "disagreement" and not d["holds_on_impl"]]
     others = [d for d in dis if d not in concrete]
